@@ -313,14 +313,14 @@ def run_loading(tier, rng, viol, stats, samples):
     sizes_fixed = [0, 1, 2, 24, 1023, 1024]
     n_rounds = 2 if tier == "quick" else 12
     cases = []
+    for bit in range(24):                                # every route bit on its own, in a one-entry table
+        cases.append(("fresh", 1, ("bit", bit), chips[bit % 3], 66, False, 256))
     for rnd in range(n_rounds):
         for prestate in PRESTATES:
             for n in sizes_fixed + [rng.randint(3, 1022) for _ in range(3)] + [rng.randint(3, 40) for _ in range(3)]:
                 kind = "single_bits" if n == 24 else rng.choice(("random", "random", "all_bits", "empty_route", "single_bits"))
                 cases.append((prestate, n, kind, chips[(rnd + n) % 3], rng.choice((1, 30, 66, 255)), rng.random() < 0.5,
                               rng.choice((256, 256, 128, 64))))
-    for bit in range(24):                                # every route bit on its own, in a one-entry table
-        cases.append(("fresh", 1, ("bit", bit), chips[bit % 3], 66, False, 256))
     for k, (prestate, n, kind, chip, app_id, zero_ok, buf) in enumerate(cases):
         stats["ev"] += 1
         model = _scamp.Scamp(mc.structs, 3, 3, buffer_size=buf, alloc_zero_ok=zero_ok)
